@@ -25,3 +25,34 @@ class Dup(metaclass=StableHashMeta):
         target_namespace = "urn:dup"
 
     first: str = field(default="", metadata={"type": "Element"})
+
+
+@dataclass
+class Shape(metaclass=StableHashMeta):
+    """m_same2 has an unrelated family with the very same qualified names."""
+
+    class Meta:
+        name = "shape"
+        namespace = "urn:shapes"
+        target_namespace = "urn:shapes"
+
+    label: str = field(default="", metadata={"type": "Element"})
+
+
+@dataclass
+class Circle(Shape):
+    class Meta:
+        name = "circle"
+        namespace = "urn:shapes"
+        target_namespace = "urn:shapes"
+
+    r: Optional[int] = field(default=None, metadata={"type": "Element"})
+
+
+@dataclass
+class Drawing1(metaclass=StableHashMeta):
+    class Meta:
+        name = "drawing1"
+        namespace = "urn:shapes"
+
+    shape: Optional[Shape] = field(default=None, metadata={"type": "Element"})
